@@ -595,6 +595,13 @@ impl<'r, 'c, 's, W: Write> DatumSerializer<'r, 'c, 's, W> {
 					&[],
 				)
 			}
+			SchemaNode::BigDecimal => {
+				let n: i128 = num.try_into().map_err(|_| {
+					SerError::new("Number does not fit i128 for encoding as BigDecimal")
+				})?;
+				// That's the number itself, with a scale of zero
+				decimal::serialize_unscaled(self.state, decimal::DecimalMode::Big, n, &[0])
+			}
 			SchemaNode::Enum(e) => {
 				let discriminant: i64 = num.try_into().map_err(|_| {
 					SerError::new("Number does not fit i64 for encoding as Enum discriminant")
